@@ -149,6 +149,14 @@ def _nested_blocks(code):
             depth = max(depth, (1 if c.body else 0) + _nested_blocks(c.body))
     return depth
 
+class CutIfMarker(Predicate):
+    """Internal pseudo goal that marks the point where an if-then-else commits.
+    It is only ever created by the compiler itself: a goal called '$CUTIF' in
+    the source text is an ordinary predicate call."""
+    def __init__(self,label):
+        Predicate.__init__(self,Functor(Atom("$CUTIF"),[Atom(label)]))
+        self.label = label
+
 class YPPrologCompiler:
     def __init__(self,context):
         self.context = context
@@ -228,9 +236,9 @@ class YPPrologCompiler:
         if isinstance(body,ConjunctionPredicate):
             # if A is simple
             if isinstance(body.lhs,Predicate):
-                if body.lhs.functor.name.value == '$CUTIF':
+                if isinstance(body.lhs,CutIfMarker):
                     self._debug("------ case: $CUTIF, A")
-                    label = body.lhs.functor.args[0].value
+                    label = body.lhs.label
                     code_a = self.compile_body(body.rhs)
                     code_b = [ YPCodeBreakBlock(label) ]
                     return code_a + code_b
@@ -311,7 +319,7 @@ class YPPrologCompiler:
                         ConjunctionPredicate(
                             body.lhs.condition,
                             ConjunctionPredicate(
-                                Predicate(Functor(Atom("$CUTIF"),[Atom(cut_if_label)])),
+                                CutIfMarker(cut_if_label),
                                 body.lhs.action
                             )
                         ),
@@ -330,9 +338,9 @@ class YPPrologCompiler:
             return self.compile_body(ConjunctionPredicate(body, TruePredicate()))
         # :- functor(...)   A => A, true
         elif isinstance(body,Predicate):
-            if body.functor.name.value == '$CUTIF':
+            if isinstance(body,CutIfMarker):
                 self._debug("------ case: $CUTIF", body.functor.args)
-                return [ self.YPCodeBreakBlock(body.functor.args[0].value) ]
+                return [ YPCodeBreakBlock(body.label) ]
             else:
                 self._debug("------ case: [A  =>  A, true]  A => A, true")
                 return self.compile_body(ConjunctionPredicate(body, TruePredicate()))
